@@ -218,6 +218,22 @@ CHECKS = {
         'F15 earlier); JSON text -> serde_json::Value is outside the model (trusted: serde_json)',
    technique='Coq proof (lemmas on the parser model\'s components) + refutation witnesses; differential check of the parser model on mutated and arbitrary texts',
    design='DESIGN.md 6/C11'),
+ 'C20': dict(
+   text='Model of Schema::parse_list (Model/Parser.v: collect_inputs, drain of the pending HashMap with its iteration order '
+        'as a parameter, on-demand parse of referenced inputs in fetch_schema_ref, results collected in input order). '
+        'Theorems: two inputs with the same full name are rejected up front for every list and every hash order '
+        '(C20_collision_rejected); the result has one schema per input in input order (C20_input_order_result); cycles '
+        'through inputs parse to the same schemas in both processing orders (C20_examples). The order-independence clause '
+        'is FALSE of the code (C20_order_dependence_refuted, known finding F52: a reference to a type defined nested '
+        'inside another input resolves only if that input is processed first; the HashMap order makes it run-dependent). '
+        'Check: generated sets (chains, diamonds, cycles, cross-namespace references, nested definitions, conflicting '
+        'duplicates, dangling references) x all permutations x 3 runs in separate processes: same verdict and same schemas '
+        'for every ordering and run, verdict as the rules say, model outcome = implementation outcome per processing order.',
+   note='one panic repaired (F51: .expect in parse_list); a full name defined both nested and as an input is accepted '
+        '(F25b); the general confluence theorem (outcome independent of hash_order for sets without nested definitions) '
+        'is not proved, only checked; identical schemas from every ordering imply identical encodings (C01/C02)',
+   technique='Coq proof (lemmas on the parse_list model) + refutation witness; permutation and repeated-run differential check',
+   design='DESIGN.md 6/C20'),
 }
 NOT_YET = 'check not built yet in this round (work in progress; see DESIGN.md section 6 for the plan)'
 
